@@ -44,7 +44,7 @@ COMPONENTS = {
 }
 EXPECTED_PROBES = ["step_slice", "step_take", "step_mask", "step_concat", "step_pickle",
                    "step_parquet", "step_series", "step_int", "invalid_request_checked",
-                   "chain_depth_ge_3", "nonzero_offset_array"]
+                   "chain_depth_ge_3", "nonzero_offset_array", "take_ascending_with_repeats"]
 
 OPS = ("int", "slice", "slice", "mask", "take", "take_fill", "concat", "copy", "iter", "series",
        "frame", "pickle", "parquet", "bad_int", "bad_take", "bad_mask")
@@ -188,6 +188,13 @@ def _drive(case, root, fs, probes, sig, done):
             if n == 0:
                 continue
             idx = [j % (2 * n) - n for j in st["idx"]]
+            if st["bits"] & 4:
+                # ascending positions from a narrow range: repeats and small gaps
+                # (contiguous-run shortcuts must not mistake these for a slice)
+                w = min(n, len(st["idx"]) + 1)
+                base = (st["a"] % n) if n else 0
+                idx = sorted(min(n - 1, base + (j % w)) for j in st["idx"])
+                probes["take_ascending_with_repeats"] = 1
             new = _guard(f"take({idx})", lambda: arr.take(idx), sig)
             newmod = [mod[_norm_index(j, n)] for j in idx]
             probes["step_take"] = 1
@@ -221,6 +228,9 @@ def _drive(case, root, fs, probes, sig, done):
             s = GeoSeries(arr, index=[f"r{j}" for j in range(n)])
             if st["bits"] & 1 and n:
                 pos = [j % n for j in st["idx"]]
+                if st["bits"] & 4:
+                    w = min(n, len(st["idx"]) + 1)
+                    pos = sorted(min(n - 1, (st["a"] % n) + (j % w)) for j in st["idx"])
                 sub = _guard("series.iloc", lambda: s.iloc[pos], sig)
                 newmod = [mod[j] for j in pos]
             elif st["bits"] & 2 and n:
